@@ -459,4 +459,105 @@ theorem register_roundtrip (max : Nat) (hmax : 0 < max) (s : VSt) (a c : Nat) (r
 
 example : (vstep 3 (vstep 3 exV3 none (.vis .chars 0 4 .y (some 'a'))) (some 2) (.regP 'a' true)).buf.text
     = "hellhellohelloo world".toList := by decide
+
+/-! ### linewise selections -/
+
+theorem findNlFrom_ge (t : Text) (i k : Nat) (h : findNlFrom t i = some k) : i ≤ k := by
+  unfold findNlFrom at h
+  simp only at h
+  split at h
+  · cases h; omega
+  · cases h
+
+theorem dropLast_append_getLast (l : Text) (c : Char) (h : l.getLast? = some c) : l = l.dropLast ++ [c] := by
+  rcases List.eq_nil_or_concat l with hnil | ⟨pre, x, hx⟩
+  · rw [hnil] at h; simp at h
+  · rw [hx] at h ⊢
+    simp at h
+    subst h
+    simp
+
+/-- end (exclusive of the newline) of the last selected line: `text.find("\n", to)` or `len - 1` -/
+def linesTo (t : Text) (hi : Nat) : Nat :=
+  match findNlFrom t hi with
+  | some k => k
+  | none => t.length - 1
+
+theorem linesTo_ge (t : Text) (hi : Nat) (h : hi ≤ t.length) : hi ≤ linesTo t hi + 1 := by
+  unfold linesTo
+  split
+  · rename_i k hk; have := findNlFrom_ge _ _ _ hk; omega
+  · omega
+
+theorem cutSelection_lines_eq (t : Text) (cur orig : Nat) :
+    cutSelection t cur orig .lines true =
+      let from_ := min cur orig - col { text := t, cur := min cur orig }
+      let to := linesTo t (max cur orig)
+      let raw := (t.take (to + 1)).drop from_
+      ({ text := t.take from_ ++ t.drop (to + 1), cur := from_ },
+       { text := if raw.getLast? = some '\n' ∧ (findNlFrom t (max cur orig)).isSome then raw.dropLast else raw,
+         ty := .lines }) := by
+  simp only [cutSelection, selectionRanges, cutLoop, if_true, join, List.nil_append, List.drop_zero,
+    true_and, linesTo]
+  rfl
+
+/-- **LINES cut fidelity.**  For a linewise selection (Vi mode) between two positions inside the
+    text, what `cut_selection` removes is one contiguous span: the stored text, followed by at
+    most the one newline that terminated the last selected line.  Putting it back gives the text. -/
+theorem cutSelection_lines_fidelity (t : Text) (cur orig : Nat) (hc : cur ≤ t.length) (ho : orig ≤ t.length) :
+    ∃ raw, (raw = (cutSelection t cur orig .lines true).2.text ∨
+            raw = (cutSelection t cur orig .lines true).2.text ++ ['\n']) ∧
+      t = reinsert (cutSelection t cur orig .lines true).1.text (cutSelection t cur orig .lines true).1.cur raw ∧
+      (cutSelection t cur orig .lines true).2.ty = .lines := by
+  rw [cutSelection_lines_eq]
+  simp only
+  generalize hfrom : min cur orig - col { text := t, cur := min cur orig } = from_
+  have hge := linesTo_ge t (max cur orig) (by omega)
+  generalize linesTo t (max cur orig) = to at hge
+  have h1 : from_ ≤ t.length := by omega
+  have h2 : from_ ≤ to + 1 := by omega
+  have hre := cut_reinsert t from_ (to + 1) h2 h1
+  split
+  · rename_i hs
+    exact ⟨(t.take (to + 1)).drop from_, Or.inr (dropLast_append_getLast _ _ hs.1), hre.symm, trivial⟩
+  · exact ⟨(t.take (to + 1)).drop from_, Or.inl rfl, hre.symm, trivial⟩
+
+example : cutSelection "a\nbc\nd".toList 3 2 .lines true = ({ text := "a\nd".toList, cur := 2 }, ⟨"bc".toList, .lines⟩) := by
+  decide
+
+/-- **register_stores_span_with_type (visual, linewise).**  `V … x` and `V … d` remove one
+    contiguous span and store it in the unnamed register with type LINES: the removed span is the
+    stored text followed by at most the newline that terminated the last selected line. -/
+theorem visual_lines_delete_fidelity (mx : Nat) (hmax : 0 < mx) (s : VSt) (a c : Nat) (act : VisAct)
+    (hact : act = .x ∨ act = .d) :
+    let s' := vstep mx s none (.vis .lines a c act none)
+    (getData s'.ring).ty = .lines ∧ s'.regs = s.regs ∧
+    ∃ raw p, (raw = (getData s'.ring).text ∨ raw = (getData s'.ring).text ++ ['\n']) ∧
+      s.buf.text = reinsert s'.buf.text p raw := by
+  have hb1 : (setCursor s.buf a).cur ≤ s.buf.text.length := by simp [setCursor]; omega
+  have hb2 : (setCursor (setCursor s.buf a) c).cur ≤ s.buf.text.length := by simp [setCursor]; omega
+  rcases hact with rfl | rfl
+  · simp only [vstep, Option.isSome_none, Bool.false_eq_true, if_false, fixNav_text, setData_top mx hmax]
+    obtain ⟨raw, h1, h2, h3⟩ := cutSelection_lines_fidelity s.buf.text _ _ hb2 hb1
+    exact ⟨h3, trivial, raw, _, h1, h2⟩
+  · simp only [vstep, Option.isSome_none, Bool.false_eq_true, if_false, fixNav_text, textObjectCut]
+    have hsc : (setCursor (setCursor s.buf a) c).text = s.buf.text := rfl
+    simp only [hsc]
+    generalize hlo : min (setCursor s.buf a).cur (setCursor (setCursor s.buf a) c).cur = lo
+    generalize hhi : max (setCursor s.buf a).cur (setCursor (setCursor s.buf a) c).cur = hi
+    have h1 : lo - col { text := s.buf.text, cur := lo } ≤ s.buf.text.length := by omega
+    have h2 : hi + (lineAfter { text := s.buf.text, cur := hi }).length ≤ s.buf.text.length := by
+      have := lineAfter_le { text := s.buf.text, cur := hi }
+      simp only at this; omega
+    obtain ⟨raw, r1, r2, r3⟩ := cutSelection_lines_fidelity s.buf.text _ _ h2 h1
+    have hst : storable (cutSelection s.buf.text (hi + (lineAfter { text := s.buf.text, cur := hi }).length)
+        (lo - col { text := s.buf.text, cur := lo }) .lines true).2 = true := by
+      simp [storable, r3]
+    simp only [hst, if_true, setData_top mx hmax]
+    exact ⟨r3, trivial, raw, _, r1, r2⟩
+
+def exV4 : VSt := { buf := { text := "a\nbc\nd".toList, cur := 0 }, ring := [], regs := [] }
+example : (vstep 3 exV4 none (.vis .lines 3 2 .d none)).buf.text = "a\nd".toList ∧
+    getData (vstep 3 exV4 none (.vis .lines 3 2 .d none)).ring = ⟨"bc".toList, .lines⟩ := by decide
+
 end Ptk.C09
